@@ -58,7 +58,8 @@ RULE = ('The component option table is derived at run time from FlowIR.type_flow
         'and the written files are loaded. Family backendvar: the options that only the legacy format knows for a '
         'backend (Dosini.options_for_backend minus the FlowIR vocabulary: the simulator sim_* keys, carried as component '
         'variables) x every backend x backend named literally / through a component variable / through a global '
-        'variable. Histories (each step judged like a single case: what is loaded equals what that step wrote): family '
+        'variable, with and without the component of the later stage naming the backend literally, also through '
+        'family e2e (the package is loaded once, the same configuration object writes the instance files). Histories (each step judged like a single case: what is loaded equals what that step wrote): family '
         'rewrite = all ordered pairs (thorough: triples) of 12 structurally different descriptions (1-4 stages, other '
         'component names, environments/sandbox, status, output, variables, backends) written one after the other into '
         'ONE directory with update_existing=True; family history = the same pairs, plus (literal backend) x (legacy-only '
